@@ -201,6 +201,111 @@ impl<T> Iterator for Src<T> {
 
 // ------------------------------------------------------------------ map operations
 
+/// Element shapes the instrumented registers do not have: pairs with padding between key and value,
+/// tiny and wide elements, unsized borrowed forms (`str`, `Path`) — including needles that point into
+/// the map's own storage and borrowed forms whose equality ignores the spelling.  Each scenario
+/// compares the container with a plain `Vec` model; the result is `"ok"` or the first discrepancy.
+fn shapes<const N: usize>() -> String {
+    use std::path::{Path, PathBuf};
+    fn pairs<K: Ord + Clone + std::fmt::Debug, V: Ord + Clone + std::fmt::Debug, const N: usize>(
+        name: &str,
+        items: Vec<(K, V)>,
+    ) -> Option<String> {
+        let n = items.len().min(N);
+        let items = &items[..n];
+        let mut m: Map<K, V, N> = mm(Map::new);
+        for (k, v) in items {
+            mm(|| m.insert(k.clone(), v.clone()));
+        }
+        let bad = |what: &str| Some(format!("{name}: {what}"));
+        // iteration order is not part of any property: compare as sorted sequences
+        fn sorted<T: Ord>(mut v: Vec<T>) -> Vec<T> {
+            v.sort();
+            v
+        }
+        let want_k = sorted(items.iter().map(|p| p.0.clone()).collect::<Vec<_>>());
+        let want_v = sorted(items.iter().map(|p| p.1.clone()).collect::<Vec<_>>());
+        let want_p = sorted(items.to_vec());
+        if mm(|| m.len()) != n {
+            return bad("len");
+        }
+        if sorted(mm(|| m.keys().cloned().collect::<Vec<_>>())) != want_k {
+            return bad("keys()");
+        }
+        if sorted(mm(|| m.values().cloned().collect::<Vec<_>>())) != want_v {
+            return bad("values()");
+        }
+        if sorted(mm(|| m.iter().map(|(k, v)| (k.clone(), v.clone())).collect::<Vec<_>>())) != want_p {
+            return bad("iter()");
+        }
+        if sorted(mm(|| m.values_mut().map(|v| v.clone()).collect::<Vec<_>>())) != want_v {
+            return bad("values_mut()");
+        }
+        for (k, v) in items {
+            if mm(|| m.get(k)) != Some(v) || mm(|| m.get_key_value(k)) != Some((k, v)) || !mm(|| m.contains_key(k)) {
+                return bad("get / get_key_value / contains_key");
+            }
+        }
+        let c = mm(|| m.clone());
+        if !mm(|| c == m) || sorted(mm(|| c.iter().map(|(k, v)| (k.clone(), v.clone())).collect::<Vec<_>>())) != want_p {
+            return bad("clone / ==");
+        }
+        if sorted(mm(|| c.into_values().collect::<Vec<_>>())) != want_v {
+            return bad("into_values()");
+        }
+        if sorted(mm(|| m.clone().into_keys().collect::<Vec<_>>())) != want_k {
+            return bad("into_keys()");
+        }
+        if n > 0 {
+            let (k0, v0) = &items[0];
+            if mm(|| m.remove(k0)).as_ref() != Some(v0) || mm(|| m.len()) != n - 1 || mm(|| m.contains_key(k0)) {
+                return bad("remove");
+            }
+        }
+        None
+    }
+    let r = pairs::<u8, u32, N>("(u8, u32)", (0..6).map(|i| (i as u8, 1000 + i as u32)).collect())
+        .or_else(|| pairs::<u32, u64, N>("(u32, u64)", (0..6).map(|i| (7 + i as u32, (1u64 << 40) + i as u64)).collect()))
+        .or_else(|| pairs::<u8, u8, N>("(u8, u8)", (0..6).map(|i| (i as u8, 200 - i as u8)).collect()))
+        .or_else(|| pairs::<u64, u8, N>("(u64, u8)", (0..6).map(|i| (u64::MAX - i as u64, i as u8)).collect()))
+        .or_else(|| pairs::<u16, [u8; 3], N>("(u16, [u8; 3])", (0..6).map(|i| (i as u16, [i as u8, 1, 2])).collect()))
+        .or_else(|| pairs::<String, u16, N>("(String, u16)", (0..6).map(|i| (format!("key{i}"), i as u16)).collect()));
+    if let Some(e) = r {
+        return esc(&e);
+    }
+    if N >= 3 {
+        // unsized borrowed form `str`, with needles that point into the map's own storage
+        let mut m: Map<String, u32, N> = mm(Map::new);
+        for (k, v) in [("abc", 1u32), ("ab", 2), ("x", 3)] {
+            mm(|| m.insert(k.to_string(), v));
+        }
+        let stored: &str = mm(|| m.get_key_value("abc")).map(|(k, _)| k.as_str()).unwrap_or("");
+        let probes: [(&str, Option<u32>); 5] =
+            [(&stored[..2], Some(2)), (&stored[..1], None), (&stored[..0], None), (&stored[..3], Some(1)), ("x", Some(3))];
+        for (needle, want) in probes {
+            if mm(|| m.get(needle)).copied() != want || mm(|| m.contains_key(needle)) != want.is_some() {
+                return esc(&format!("(String, u32) looked up by &str: needle {needle:?} (a sub-slice of a stored key)"));
+            }
+        }
+        // `Path`: equal paths may be spelled with different lengths
+        let mut p: Map<PathBuf, u32, N> = mm(Map::new);
+        for (k, v) in [("usr/lib", 1u32), ("var/log/", 2), ("a", 3)] {
+            mm(|| p.insert(PathBuf::from(k), v));
+        }
+        for (needle, want) in [("usr//lib", Some(1u32)), ("usr/lib/", Some(1)), ("var/log", Some(2)), ("a/", Some(3)), ("b", None)] {
+            let q = Path::new(needle);
+            let by_key = mm(|| p.get(&PathBuf::from(needle))).copied();
+            if mm(|| p.get(q)).copied() != want || by_key != want || mm(|| p.contains_key(q)) != want.is_some() {
+                return esc(&format!("(PathBuf, u32) looked up by &Path {needle:?}"));
+            }
+        }
+        if mm(|| p.remove(Path::new("var//log"))) != Some(2) || mm(|| p.len()) != 2 {
+            return esc("(PathBuf, u32): remove through a differently spelled &Path");
+        }
+    }
+    "\"ok\"".into()
+}
+
 /// take items from a drain / consuming iterator, observe it, then end it.
 /// Output: `[[items],len,(debug,)size_hint(,count)]`.
 fn consume<I, S, D>(cx: &mut Cx, mut it: I, take: Take, end: End, show: S, dbg: Option<D>) -> String
@@ -460,6 +565,7 @@ pub fn map_op<const N: usize>(cx: &mut Cx, m: &mut MapN<N>, op: &MapOp) -> Strin
         MapOp::SerdeZst(k) => serde_rt::zst_map::<N>(*k),
         #[cfg(not(feature = "serde"))]
         MapOp::SerdeZst(_) => "[unsupported]".into(),
+        MapOp::Shapes => shapes::<N>(),
         MapOp::Defaults => {
             let d: MapN<N> = mm(Map::default);
             let mut out = vec![format!("{}", mm(|| d.len())), format!("{}", mm(|| d.capacity()))];
